@@ -147,6 +147,108 @@ func (c *c06Session) feed(bodies ...[]byte) *bgp.BGPNotification {
 	return n
 }
 
+// feedRaw runs ONE real recvMessageloop over all the given UPDATEs (one session, one byte stream) and
+// leaves the delivered messages in c.got for the caller to hand to the server one at a time.
+func (c *c06Session) feedRaw(bodies ...[]byte) *bgp.BGPNotification {
+	var stream []byte
+	for _, b := range bodies {
+		stream = append(stream, c06Frame(b)...)
+	}
+	c.got, c.attr = nil, nil
+	conn := &c06Conn{r: bytes.NewReader(stream)}
+	holdCh := make(chan struct{}, 2)
+	reasonCh := make(chan fsmStateReason, 4)
+	wg := &sync.WaitGroup{}
+	wg.Add(1)
+	c.h.recvMessageloop(context.Background(), conn, holdCh, reasonCh, wg)
+	select {
+	case m := <-c.h.fsm.notification:
+		return m.Body.(*bgp.BGPNotification)
+	default:
+	}
+	return nil
+}
+
+// describe: the canonical answer for the i-th delivered message (same format as the `act` lines)
+func (c *c06Session) describe(i int) (string, int) {
+	fm := c.got[i]
+	u := fm.MsgData.(*bgp.BGPMessage).Body.(*bgp.BGPUpdate)
+	rank := 0
+	var got string
+	switch fm.handling {
+	case bgp.ERROR_HANDLING_NONE:
+		got = "install " + c.attr[i]
+	case bgp.ERROR_HANDLING_ATTRIBUTE_DISCARD:
+		rank = 1
+		got = "discard " + c.attr[i]
+	case bgp.ERROR_HANDLING_TREAT_AS_WITHDRAW:
+		rank = 2
+		got = "withdraw"
+	default:
+		got = fmt.Sprintf("handling-%d", int(fm.handling))
+	}
+	got += fmt.Sprintf(" wd=%d nlri=%d", len(u.WithdrawnRoutes), len(u.NLRI))
+	ann, wdn := 0, 0
+	for _, p := range table.ProcessMessage(fm.MsgData.(*bgp.BGPMessage), c.peer.peerInfo.Load(), fm.timestamp, fm.handling == bgp.ERROR_HANDLING_TREAT_AS_WITHDRAW) {
+		switch {
+		case p.IsEOR():
+		case p.IsWithdraw:
+			wdn++
+		default:
+			ann++
+		}
+	}
+	return got + fmt.Sprintf(" ann=%d wdn=%d", ann, wdn), rank
+}
+
+// state of the given IPv4 prefixes in the neighbour's Adj-RIB-In: "absent" or the attribute types carried
+func (c *c06Session) prefixState(keys []string) string {
+	adj, _ := c.routes()
+	have := map[string]*table.Path{}
+	for _, p := range adj {
+		if !p.IsWithdraw {
+			have[p.GetNlri().String()] = p
+		}
+	}
+	var out []string
+	for _, k := range keys {
+		p := have[k]
+		if p == nil {
+			out = append(out, k+"=absent")
+			continue
+		}
+		var ts []string
+		for _, a := range p.GetPathAttrs() {
+			ts = append(ts, fmt.Sprint(int(a.GetType())))
+		}
+		out = append(out, k+"="+strings.Join(ts, "."))
+	}
+	return strings.Join(out, " ")
+}
+
+func c06Clone(m *c06Msg) *c06Msg {
+	n := *m
+	n.attrs = make([]c06Attr, len(m.attrs))
+	for i := range m.attrs {
+		n.attrs[i] = m.attrs[i]
+		n.attrs[i].val = append([]byte{}, m.attrs[i].val...)
+	}
+	n.nlri = append([][]byte{}, m.nlri...)
+	n.wd = append([][]byte{}, m.wd...)
+	n.faults = append([]c06Fault{}, m.faults...)
+	return &n
+}
+
+func (m *c06Msg) without(typ byte) {
+	var out []c06Attr
+	for _, a := range m.attrs {
+		if a.typ != typ {
+			out = append(out, a)
+		}
+	}
+	m.attrs = out
+}
+
 var c06Fams = []bgp.Family{bgp.RF_IPv4_UC, bgp.RF_IPv6_UC}
 
 func (c *c06Session) routes() (adj, glob []*table.Path) {
@@ -722,6 +824,259 @@ func TestVerifC06Server(t *testing.T) {
 		floating = r.chance(30)
 		runCase(m, revised, !r.chance(10), "peer_"+[]string{"ebgp", "ibgp", "confed"}[peer])
 		floating = false
+	}
+
+	// ------------------------------------------------------------------------------------------
+	// SEQUENCES: several UPDATEs through ONE recvMessageloop session.  The handling of an UPDATE is a
+	// function of that UPDATE and of the session's negotiated parameters only, never of the UPDATEs
+	// before it.  Consecutive messages share attribute bytes / NLRI / shape and differ in what decides
+	// validity.  Each message is judged (a) against the model (`act`), (b) against the SAME message
+	// delivered first on a fresh session with the same parameters (handling, delivered attributes,
+	// ProcessMessage counts, state of its prefixes in the Adj-RIB-In), (c) by the route oracles.
+	// ------------------------------------------------------------------------------------------
+	seqBase := func(peer int) *c06Msg {
+		for {
+			m := c06Base(r, peer)
+			if len(m.nlri) > 0 && m.count(1) == 1 && m.count(2) == 1 && m.count(3) == 1 && m.count(14) == 0 && m.count(15) == 0 {
+				return m
+			}
+		}
+	}
+	type variant struct {
+		name string
+		mk   func(b *c06Msg) *c06Msg
+	}
+	wdOnly := [][]byte{{24, 201, 7, 7}}
+	mpReach := c06Attr{typ: 14, flags: 0x80, decl: -1,
+		val: append([]byte{0, 2, 1, 16, 0x20, 0x01, 0x0d, 0xb8, 0, 0, 0, 0, 0, 0, 0, 0, 0, 0, 0, 9, 0}, 48, 0x20, 0x01, 0x0d, 0xb8, 0xee, 0xee)}
+	variants := map[string]variant{}
+	addV := func(name string, mk func(b *c06Msg) *c06Msg) { variants[name] = variant{name, mk} }
+	addV("as-is", func(b *c06Msg) *c06Msg { return c06Clone(b) })
+	// attributes without NEXT_HOP, withdrawal only: valid (NEXT_HOP is mandatory only with NLRI)
+	addV("noNH-noNLRI", func(b *c06Msg) *c06Msg { m := c06Clone(b); m.without(3); m.nlri = nil; m.wd = wdOnly; return m })
+	// exactly the same attribute bytes plus the NLRI: NEXT_HOP missing, treat-as-withdraw
+	addV("noNH+NLRI", func(b *c06Msg) *c06Msg {
+		m := c06Clone(b)
+		m.without(3)
+		m.wd = nil
+		m.faults = append(m.faults, c06Fault{"missing:3", c06Withdraw, 3})
+		return m
+	})
+	// the same attribute bytes plus MP_REACH instead of NLRI: valid again
+	addV("noNH+MPREACH", func(b *c06Msg) *c06Msg { m := c06Clone(b); m.without(3); m.nlri = nil; m.wd = nil; m.attrs = append(m.attrs, mpReach); return m })
+	// attributes without ORIGIN, no NLRI: valid; plus NLRI: ORIGIN missing
+	addV("noORIGIN-noNLRI", func(b *c06Msg) *c06Msg { m := c06Clone(b); m.without(1); m.nlri = nil; m.wd = wdOnly; return m })
+	addV("noORIGIN+NLRI", func(b *c06Msg) *c06Msg {
+		m := c06Clone(b)
+		m.without(1)
+		m.faults = append(m.faults, c06Fault{"missing:1", c06Withdraw, 1})
+		return m
+	})
+	addV("noASPATH-noNLRI", func(b *c06Msg) *c06Msg { m := c06Clone(b); m.without(2); m.nlri = nil; m.wd = wdOnly; return m })
+	addV("noASPATH+NLRI", func(b *c06Msg) *c06Msg {
+		m := c06Clone(b)
+		m.without(2)
+		m.faults = append(m.faults, c06Fault{"missing:2", c06Withdraw, 2})
+		return m
+	})
+	// full attributes, withdrawal only / then as-is: identical attribute block, both valid
+	addV("full-noNLRI", func(b *c06Msg) *c06Msg { m := c06Clone(b); m.nlri = nil; m.wd = wdOnly; return m })
+	// same attributes plus ONE malformed attribute (discard class / treat-as-withdraw class)
+	addV("plus-bad-atomic", func(b *c06Msg) *c06Msg {
+		m := c06Clone(b)
+		m.without(6)
+		m.attrs = append(m.attrs, c06Attr{typ: 6, flags: 0x40, val: []byte{1}, decl: -1, tag: "len"})
+		m.faults = append(m.faults, c06Fault{"len:6", c06Discard, 6})
+		return m
+	})
+	addV("plus-bad-community", func(b *c06Msg) *c06Msg {
+		m := c06Clone(b)
+		m.without(8)
+		m.attrs = append(m.attrs, c06Attr{typ: 8, flags: 0xc0, val: []byte{1, 2, 3}, decl: -1, tag: "len"})
+		m.faults = append(m.faults, c06Fault{"len:8", c06Withdraw, 8})
+		return m
+	})
+	// same shape and length, ORIGIN value invalid
+	addV("bad-origin-value", func(b *c06Msg) *c06Msg {
+		m := c06Clone(b)
+		i := m.find(1)
+		m.attrs[i].val, m.attrs[i].tag = []byte{9}, "value"
+		m.faults = append(m.faults, c06Fault{"origin-value", c06Withdraw, 1})
+		return m
+	})
+	// a duplicate of an attribute appended (discard class, first occurrence kept)
+	addV("plus-dup", func(b *c06Msg) *c06Msg {
+		m := c06Clone(b)
+		d := m.attrs[m.find(1)]
+		m.attrs = append(m.attrs, d)
+		m.faults = append(m.faults, c06Fault{"dup:1", c06Discard, 1})
+		return m
+	})
+	// anything from the fault catalogue on the same base
+	addV("random-fault", func(b *c06Msg) *c06Msg {
+		for {
+			m := c06Clone(b)
+			if c06Inject(r, m) {
+				return m
+			}
+		}
+	})
+	templates := [][]string{
+		{"as-is", "noNH-noNLRI", "noNH+NLRI", "as-is"},
+		{"noNH-noNLRI", "noNH+NLRI", "noNH-noNLRI", "noNH+MPREACH", "noNH+NLRI"},
+		{"as-is", "noORIGIN-noNLRI", "noORIGIN+NLRI", "as-is", "as-is"},
+		{"noASPATH-noNLRI", "noASPATH+NLRI", "full-noNLRI", "as-is"},
+		{"full-noNLRI", "as-is", "bad-origin-value", "as-is", "full-noNLRI"},
+		{"as-is", "as-is", "plus-bad-atomic", "as-is", "plus-bad-community", "as-is"},
+		{"as-is", "plus-dup", "as-is", "noNH-noNLRI", "noNH+NLRI"},
+		{"noNH+MPREACH", "noNH+NLRI", "noNH+MPREACH", "as-is"},
+		{"as-is", "random-fault", "as-is", "random-fault", "as-is"},
+		{"random-fault", "noNH-noNLRI", "noNH+NLRI", "random-fault", "as-is"},
+	}
+	vnames := []string{"as-is", "noNH-noNLRI", "noNH+NLRI", "noNH+MPREACH", "noORIGIN-noNLRI", "noORIGIN+NLRI", "noASPATH-noNLRI",
+		"noASPATH+NLRI", "full-noNLRI", "plus-bad-atomic", "plus-bad-community", "bad-origin-value", "plus-dup", "random-fault"}
+
+	runSeq := func(peer int, revised, v6 bool, names []string) {
+		c := sess[peer]
+		as := peerAS[peer]
+		base := seqBase(peer)
+		var msgs []*c06Msg
+		var bodies [][]byte
+		hasAS4 := false
+		for _, nm := range names {
+			m := variants[nm].mk(base)
+			msgs = append(msgs, m)
+			bodies = append(bodies, m.body())
+			if m.count(17) > 0 {
+				hasAS4 = true
+			}
+		}
+		keysOf := func(m *c06Msg) []string {
+			var ks []string
+			if !m.framing {
+				for _, p := range m.nlri {
+					ks = append(ks, c06PrefixKey(p))
+				}
+			}
+			return ks
+		}
+		cfg := fmt.Sprintf("%d %d %d 0 1 %d", c06B(revised), c06B(peer != 1), c06B(peer == 2), c06B(v6))
+		// (1) reference: every message alone, first on a fresh session with the same parameters
+		type obs struct {
+			got   string
+			state string
+		}
+		ref := make([]obs, len(msgs))
+		for i := range msgs {
+			c.drop()
+			c.establish(t, as, revised, !base.use2, v6)
+			if n := c.feedRaw(bodies[i]); n != nil {
+				ref[i].got = fmt.Sprintf("reset %d %d", n.ErrorCode, n.ErrorSubcode)
+			} else if len(c.got) == 1 {
+				ref[i].got, _ = c.describe(0)
+				c.s.handleFSMMessage(c.peer, c.got[0])
+				ref[i].state = c.prefixState(keysOf(msgs[i]))
+			} else {
+				ref[i].got = fmt.Sprintf("nothing-delivered-%d", len(c.got))
+			}
+		}
+		// (2) the sequence: ONE session, one recvMessageloop over the whole stream
+		c.drop()
+		c.establish(t, as, revised, !base.use2, v6)
+		notif := c.feedRaw(bodies...)
+		delivered := len(c.got)
+		neutral := &c06Msg{peer: peer}
+		if hasAS4 {
+			neutral.attrs = []c06Attr{{typ: 17}}
+		}
+		o.stat("sequences", 1)
+		for i := range msgs {
+			m := msgs[i]
+			detail := map[string]any{"sequence": names, "index": i, "variant": names[i], "body": m.hex(), "peer": peer,
+				"revised": revised, "use2": base.use2, "v6": v6, "faults": m.faultNames()}
+			var hexes []string
+			for k := 0; k <= i; k++ {
+				hexes = append(hexes, msgs[k].hex())
+			}
+			detail["bodies_so_far"] = hexes
+			var got, state string
+			rank := 4
+			switch {
+			case i < delivered:
+				got, rank = c.describe(i)
+				c.s.handleFSMMessage(c.peer, c.got[i])
+				state = c.prefixState(keysOf(m))
+			case i == delivered && notif != nil:
+				got = fmt.Sprintf("reset %d %d", notif.ErrorCode, notif.ErrorSubcode)
+			case i == delivered:
+				got = "nothing-delivered"
+			default:
+				// after a session reset nothing more is read
+				o.stat("sequence_cut_by_reset", 1)
+				return
+			}
+			o.ask(got, "act %s %d %s", cfg, c06B(base.use2), m.hex())
+			o.stat("seq_message_"+rankName[rank], 1)
+			o.stat("seq_variant_"+names[i], 1)
+			detail["reaction"] = got
+			detail["reaction_alone_on_fresh_session"] = ref[i].got
+			// (b) history independence
+			if got != ref[i].got {
+				o.fail("handling-depends-on-earlier-updates", detail)
+			} else if state != ref[i].state {
+				detail["adj_in"] = state
+				detail["adj_in_alone_on_fresh_session"] = ref[i].state
+				o.fail("rib-effect-depends-on-earlier-updates", detail)
+			}
+			// (c) the containment rule on everything the neighbour has installed so far
+			if i < delivered {
+				adj, glob := c.routes()
+				for _, p := range adj {
+					c06CheckRoute(o, "adj-in", p, neutral, detail)
+				}
+				for _, p := range glob {
+					c06CheckRoute(o, "loc-rib", p, neutral, detail)
+				}
+				if !m.framing {
+					for _, ft := range m.faults {
+						if ft.min < 0 || (ft.typ >= 0 && !strings.HasPrefix(ft.name, "dup") && m.count(byte(ft.typ)) > 1) {
+							continue
+						}
+						if revised && rank < ft.min && !(rank == 2 && ft.min == 4) {
+							detail["fault"] = ft.name
+							o.fail(fmt.Sprintf("reaction-weaker-than-rfc:%s<%s", rankName[rank], rankName[ft.min]), detail)
+						}
+					}
+					if rank == 2 {
+						for _, k := range keysOf(m) {
+							if strings.Contains(state, k+"=") && !strings.Contains(state, k+"=absent") {
+								o.fail("treat-as-withdraw-leaves-route", detail)
+							}
+						}
+					}
+				}
+			}
+		}
+	}
+
+	// corpus: the seed C06-M history (announce P; same attributes without NEXT_HOP, withdrawal only; the same plus P)
+	runSeq(0, true, true, templates[0])
+	runSeq(1, true, true, templates[0])
+	runSeq(2, true, true, templates[1])
+	ns := 450
+	if o.thorough {
+		ns = 3000
+	}
+	for i := 0; i < ns; i++ {
+		var names []string
+		if r.chance(70) {
+			names = templates[r.intn(len(templates))]
+		} else {
+			for k, n := 0, 3+r.intn(4); k < n; k++ {
+				names = append(names, vnames[r.intn(len(vnames))])
+			}
+		}
+		runSeq(i%3, !r.chance(12), !r.chance(10), names)
 	}
 }
 
